@@ -34,7 +34,7 @@ READONLY = [('status', True), ('list', True), ('numprocesses', True),
             ('get', True), ('globaloptions', False), ('listsockets', False),
             ('list', False), ('status', False), ('stats', False)]
 STATE_CHANGING = ('incr', 'decr', 'set', 'start', 'stop', 'restart',
-                  'reload', 'rm', 'kill', 'quit')
+                  'reload', 'rm', 'kill', 'quit', 'reloadconfig')
 
 
 def execute(case):
@@ -50,7 +50,8 @@ def execute(case):
            "gt": max([float(wc.get("graceful_timeout", 30.0))
                       for wc in case["watchers"]]),
            "warm": max([float(wc.get("warmup_delay", 0))
-                        for wc in case["watchers"]])}
+                        for wc in case["watchers"]]),
+           "n": len(names), "gwarm": gwarm}
     tracked = []      # (req, cmd, deadline)
     removed = set()
     probe_i = [0]
@@ -62,9 +63,25 @@ def execute(case):
 
     def bound():
         per = 2 * (cap["np"] + 1) * (cap["gt"] + 0.2 + cap["warm"])
-        return len(names) * per + (len(names) + 1) * gwarm + 1.0
+        return cap["n"] * per + (cap["n"] + 1) * cap["gwarm"] + 1.0
 
     def on_op(h_, i, op):
+        if op[0] == 'cfg':
+            ed = op[1]
+            if "add" in ed:
+                cap["n"] += 1
+                cap["np"] = max(cap["np"], int(ed["add"]["numprocesses"]))
+                cap["gt"] = max(cap["gt"],
+                                float(ed["add"]["graceful_timeout"]))
+                cap["warm"] = max(cap["warm"],
+                                  float(ed["add"].get("warmup_delay", 0)))
+            elif "set" in ed and ed["set"][1] == 'numprocesses':
+                cap["np"] = max(cap["np"], int(ed["set"][2]))
+            elif "set" in ed and ed["set"][1] == 'graceful_timeout':
+                cap["gt"] = max(cap["gt"], float(ed["set"][2]))
+            elif "circus" in ed and "warmup_delay" in ed["circus"]:
+                cap["gwarm"] = max(cap["gwarm"],
+                                   float(ed["circus"]["warmup_delay"]))
         if op[0] == 'req':
             cmd, props = op[1], op[2]
             req = h_.reqs[i]
@@ -96,7 +113,7 @@ def execute(case):
         props = {}
         target = None
         if needs_name:
-            cands = [n for n in names if n not in removed]
+            cands = [n for n in (h_.watcher_names() or [])]
             if not cands:
                 return
             target = cands[i % len(cands)]
@@ -229,7 +246,7 @@ def _strategy():
                   'start'),
         hooks=True, exec_fail=True, children=1, kill_cmd=True,
         signal_cmd=True, respawn_false=True, rm=True, max_ops=24,
-        set_other=True)
+        set_other=True, job_control=True, config=True)
 
     @st.composite
     def case(draw):
